@@ -726,6 +726,11 @@ class Verifier(Engine):
     def assign(self, st, t, v):
         if isinstance(t, ast.Name):
             st.env[t.id] = v
+            ub = st.env.get('$ub')
+            if ub and t.id in ub and not getattr(self, '_loop_binding', False):
+                ub = dict(ub)
+                del ub[t.id]
+                st.env['$ub'] = ub
         elif isinstance(t, ast.Attribute):
             recv = self.ev.ev(st, t.value)
             self.set_attr(st, recv, t.attr, v)
@@ -736,7 +741,27 @@ class Verifier(Engine):
         elif isinstance(t, ast.Subscript):
             recv = self.ev.ev(st, t.value)
             if isinstance(t.slice, ast.Slice):
-                raise OutOfSubset('slice assignment')
+                # lst[a:] = other   -- keep the first a elements, then other's
+                if t.slice.upper is not None or t.slice.step is not None or not isinstance(recv, VList) or not isinstance(v, VList):
+                    raise OutOfSubset('slice assignment')
+                lo = self.ev.ev(st, t.slice.lower) if t.slice.lower is not None else VInt(0)
+                n = st.llen(recv.t)
+                a = self.clamp(self.as_int(lo), n)
+                m = st.llen(v.t)
+                if v.ek != recv.ek:
+                    ms = z3.simplify(m)
+                    if not (z3.is_int_value(ms) and ms.as_long() == 0):
+                        raise OutOfSubset('slice assignment between lists of different element kinds')
+                else:
+                    old = st.larr(recv.t, recv.ek)
+                    srcl = st.larr(v.t, v.ek)
+                    k = z3.Int(fresh_name('k'))
+                    new = z3.Const(fresh_name('sla'), old.sort())
+                    st.pc.append(smt.forall([k], z3.Select(new, k) == z3.If(k < a, z3.Select(old, k), z3.Select(srcl, k - a)),
+                                            patterns=[z3.Select(new, k)]))
+                    st.lset_all(recv.t, new, recv.ek)
+                st.wr('$len', recv.t, a + m)
+                return
             idx = self.ev.ev(st, t.slice)
             if isinstance(recv, VList):
                 n = st.llen(recv.t)
